@@ -439,6 +439,10 @@ theorem retry_keeps_executed (mt : Dep → Bool) (s : Store) (ds : List Dep) (j 
   · rw [h, hj]
   · rw [hj] at h; cases h
 
+/-- a RetryV2 event becomes a request for the source chain with the event's destination, height and resource -/
+theorem retryV2_request (listening src dst height res : Nat) :
+    PRequest src dst height res (retryV2 listening src dst height res) := ⟨rfl, rfl, rfl, rfl, rfl⟩
+
 /-- **C17 (b).** A deposit whose status cannot be read, or whose stuck-pending record cannot be rewritten, is
     withheld: `isExecuted` answers "re-emit" only if the read succeeded, the record is not `executed`, and — for a
     pending record — the write of `failed` succeeded. -/
